@@ -261,6 +261,45 @@ func sortStrings(s []string) {
 	}
 }
 
+// slowNeighbour keeps one more connection busy for as long as stop is open: its
+// BMC answers every request correctly but only after 3 s (longer than the other
+// connections' per-attempt timeout), so the goroutine using it sits in a blocking
+// receive nearly all the time. The other connections must not notice.
+func slowNeighbour(stop <-chan struct{}) error {
+	b := simbmc.New(1)
+	srv, err := udpnet.Listen(b)
+	if err != nil {
+		return err
+	}
+	srv.Arm(func(rx *simbmc.Rx) []udpnet.Reply {
+		var out []udpnet.Reply
+		for _, o := range rx.Replies {
+			out = append(out, udpnet.Reply{Data: o.Data, After: 3 * time.Second})
+		}
+		return out
+	})
+	t, err := bmc.DialV2(srv.Addr(), bmc.WithTimeout(10*time.Second))
+	if err != nil {
+		srv.Close()
+		return err
+	}
+	go func() {
+		defer srv.Close()
+		defer t.Close()
+		for {
+			select {
+			case <-stop:
+				return
+			default:
+			}
+			ctx, cancel := context.WithTimeout(context.Background(), 10*time.Second)
+			t.GetSystemGUID(ctx)
+			cancel()
+		}
+	}()
+	return nil
+}
+
 func TestConcurrent(t *testing.T) {
 	ns := []int{8}
 	procs := []int{4}
@@ -304,6 +343,16 @@ func TestConcurrent(t *testing.T) {
 					var wg sync.WaitGroup
 					var started int32
 					gate := make(chan struct{})
+					// every third repetition a further connection, to a BMC that takes 3 s
+					// to answer, is in use at the same time
+					stopNeighbour := make(chan struct{})
+					if rep%3 == 1 {
+						if err := slowNeighbour(stopNeighbour); err != nil {
+							t.Fatalf("harness: %v", err)
+						}
+						time.Sleep(20 * time.Millisecond) // let it reach its first receive
+						ev.Label("slow-neighbour-connection")
+					}
 					for i := range seeds {
 						wg.Add(1)
 						go func(i int) {
@@ -318,6 +367,7 @@ func TestConcurrent(t *testing.T) {
 					}
 					close(gate)
 					wg.Wait()
+					close(stopNeighbour)
 				}
 				// the order alternates: state that a connection leaves behind in the
 				// package (caches filled on first use) must not matter either way
@@ -368,5 +418,5 @@ func TestConcurrent(t *testing.T) {
 
 func TestCoverage(t *testing.T) {
 	ev.RequireLabels(t, 2, "overlapped:N=8:GOMAXPROCS=4")
-	ev.RequireLabels(t, 1, "concurrent-complete", "order:together-first")
+	ev.RequireLabels(t, 1, "concurrent-complete", "order:together-first", "slow-neighbour-connection")
 }
